@@ -461,6 +461,14 @@ pub fn jbig2_decode(data: &[u8], globals: &[u8]) -> Result<Vec<u8>> {
 }
 
 pub fn decode(data: &[u8], filter: &StreamFilter) -> Result<Vec<u8>> {
+    #[cfg(pdf_rs_pdf_verif)]
+    if let Some(_scope) = crate::verif::decode_scope() {
+        let out = decode(data, filter);
+        if let Ok(ref bytes) = out {
+            crate::verif::decoded(bytes.len());
+        }
+        return out;
+    }
     match *filter {
         StreamFilter::ASCIIHexDecode => decode_hex(data),
         StreamFilter::ASCII85Decode => decode_85(data),
